@@ -71,7 +71,13 @@ def outcome_key(op, out):
 class ScenarioRunner:
     """Prepares the start state once and runs schedules against copies of it."""
 
-    def __init__(self, scn, scratch, observer_factory=None, dir_level_reduction=True):
+    def __init__(self, scn, scratch, observer_factory=None, dir_level_reduction=None):
+        if dir_level_reduction is None:
+            # Directory-level stat/mkdir operations are scheduling points only where directories can still be
+            # missing: scenarios that start from an empty store and all metadata scenarios (a pid's metadata
+            # directory is created by its first document). Elsewhere they are skipped (they commute).
+            dir_level_reduction = not (scn.start_class.startswith("empty") or scn.start_class.startswith("absent")
+                                       or any(o["op"] in ("smeta", "dmeta", "rmeta") for o in scn.calls))
         self.scn = scn
         self.scratch = scratch
         self.contents = {k: make_content(v["cseed"], v["size"]) for k, v in scn.contents_spec.items()}
@@ -388,14 +394,15 @@ def object_removers(scn):
     delete_if_invalid_object with wrong data on that content)."""
     stored = {o["content"] for o in scn.calls if o["op"] == "store" and o.get("pid") is not None}
     bound = {}
-    for s_ in scn.start:
+    # a pid may be bound by the start state or by another call of the same scenario (triples)
+    for s_ in list(scn.start) + list(scn.calls):
         if s_["op"] == "store" and s_.get("pid"):
-            bound[s_["pid"]] = s_["content"]
+            bound.setdefault(s_["pid"], set()).add(s_["content"])
         elif s_["op"] == "tag":
-            bound[s_["pid"]] = s_["cid"][1]
+            bound.setdefault(s_["pid"], set()).add(s_["cid"][1])
     out = set()
     for o in scn.calls:
-        if o["op"] == "delete" and bound.get(o["pid"]) in stored:
+        if o["op"] == "delete" and bound.get(o["pid"], set()) & stored:
             out.add("delete_object")
         if o["op"] == "dii" and o.get("checksum") != "ok" and o["content"] in stored:
             out.add("delete_if_invalid_object")
